@@ -284,9 +284,13 @@ class C08(Prop):
                     stale=None, stale_b=None)
         na = self.ncalls(dict(via="func", old=base["old"], new_size=60, cap=None, stale=None))
         nb = self.ncalls(dict(via="func", old=base["old"], new_size=70, cap=None, stale=None))
-        combos = list(itertools.combinations(range(na + nb), na))
-        if not thorough:
-            combos = rng.sample(combos, min(150, len(combos)))
+        import math
+        if math.comb(na + nb, na) <= 20000:
+            combos = list(itertools.combinations(range(na + nb), na))
+            if not thorough:
+                combos = rng.sample(combos, min(150, len(combos)))
+        else:   # (only when the implementation issues more calls than the 7-call skeleton)
+            combos = [tuple(sorted(rng.sample(range(na + nb), na))) for _ in range(3432 if thorough else 150)]
         for pos in combos:
             s = ["B"] * (na + nb)
             for p in pos:
